@@ -32,5 +32,8 @@ def run(S):
     keylen.rule_narrow(S)
     C01.rule_lookup(S)
     C01.rule_wul(S)
+    # 'removing every key and re-inserting': a removed slot is really cleared, in the node (shared with C15)
+    from checks import C15
+    C15.rule_copy(S)
     from checks import C19
     C19.rule_idx(S)
